@@ -172,12 +172,12 @@ def run(tier, seed, replay=None):
                 rep.violation("format:%s" % shape, "format %r... with limits D=%d M=%d under the sanitizers: %s" % (cs.src[:60], D, M, prob), dict(tokens=cs.h["fmt"], D=D, M=M))
     for msg, where in reports()[:5]:
         rep.violation("sanitizer:%s" % where.split(" ")[0], "sanitizer report while formatting model-generated formats: %s at %s" % (msg, where), dict(report=msg, where=where))
-    sub = c.Reporter("C02sub", tier, seed, "exploration")
+    sub = c.Reporter("C02", tier, seed, "exploration", silent=True)
     nb = c06.boundary_family(sub, b, tier)
     total += nb
     nontriv += nb
     for sig, what, path in sub.violations:
-        rep.violation("cmdline:" + sig, "boundary argument vector under the sanitizers: " + what, dict(see=path))
+        rep.violation("cmdline:" + sig, "boundary argument vector under the sanitizers: " + what, dict(detail=what))
     for msg, where in reports()[:5]:
         rep.violation("sanitizer:%s" % where.split(" ")[0], "sanitizer report for boundary argument vectors: %s at %s" % (msg, where), dict(report=msg, where=where))
 
